@@ -16,6 +16,27 @@ CLAIMED = {
              "mathematical; pyvc's encoding of the accepted Python subset. Not decided: the polynomial work bound; repeatability is argued from "
              "the frame, not an SMT obligation.",
         ref="DESIGN.md section 4 C12, Appendix A.1"),
+    'C03': dict(
+        text="Context-stack discipline of the real evaluator by assume-guarantee over eval -> _eval_fn -> call -> eval: on normal AND "
+             "exceptional exit the scope sequence (same objects, same order, same minimum) is what it was at entry, whatever the body "
+             "does and wherever it raises; KlongContext as a stack of finite maps (push/pop/innermost lookup/assignment to the first "
+             "holder/deletion with whole-stack frames); a conditional evaluates its test once and exactly one branch chosen by Klong "
+             "truth (ghost evaluation log). Projection flattening: merge_projections == 'fill holes left to right at every step' "
+             "checked exhaustively on the real function over the language's domain (bounded, labelled).",
+        note="Assumed: verb functions, Python callables and compiled expressions are stack-preserving; the documented .module exception "
+             "(ghost flag); module-scope lookup rules not under contract; the positional construction of the call frame in _eval_fn is "
+             "not yet under contract; substitution semantics of whole bodies is a whole-evaluator statement and not decided.",
+        ref="DESIGN.md section 4 C03, Appendix A.4",
+        technique=TECH + "; merge_projections: exhaustive enumeration over the language's finite domain (bounded stand-in)"),
+    'C09': dict(
+        text="klong[k]=v / klong[k] / del klong[k] through the context-assignment contract (wrap on both paths, cache cleared, "
+             "functions read back as KGFnWrapper bound to the name); KGLambda collects the first n reserved symbols (positional) and "
+             "calls the Python callable exactly once with exactly the frame values in order, klong first when requested, returning its "
+             "result; KGFnWrapper.__call__ rejects a wrong argument count before any evaluation, uses the current definition when it is "
+             "still a function (the original otherwise) and makes exactly one klong.call(KGCall(fn.a, args, fn.arity)).",
+        note="Assumed: inspect.signature and np.asarray as pure functions; the evaluator contract of C03; the call frame maps x,y,z "
+             "positionally (built by _eval_fn, not under contract); _handle_import and _find_symbol not under contract.",
+        ref="DESIGN.md section 4 C09, Appendix A.4"),
     'C15': dict(
         text="Representation invariant of the real KGTimerHandler / _call_periodic / run closure over ghost state (stopped flag, number of "
              "live loop handles): at most one live handle, none once stopped; .timerc returns 1 exactly when it stopped a live timer; the "
